@@ -684,18 +684,21 @@ class Interp:
         self.c_iter = self.classes["Iter"]
         self.c_stop_iter = self.classes["StopIter"]
         self.c_tuple = native_class("Tuple", TUPLE_METHODS)
-        self.c_tuple_iter = native_class("TupleIter", {"next": n_iter_next}, superclass=self.c_iter)
+        def it_next(kind, label):
+            return typed(label, lambda r: type(r) is YIter and r.kind == kind, {"next": n_iter_next}, {"next": 0})
+        self.c_tuple_iter = native_class("TupleIter", it_next("tuple", "TupleIter"), superclass=self.c_iter)
         self.c_vec = native_class("Vec", VEC_METHODS)
-        self.c_vec_iter = native_class("VecIter", {"next": n_iter_next}, superclass=self.c_iter)
-        self.c_range = native_class("Range", {"iter": n_range_iter})
-        self.c_range_iter = native_class("RangeIter", {"next": n_iter_next}, superclass=self.c_iter)
+        self.c_vec_iter = native_class("VecIter", it_next("vec", "VecIter"), superclass=self.c_iter)
+        self.c_range = native_class("Range", typed("Range", lambda r: type(r) is YRange, {"iter": n_range_iter}, {"iter": 0}))
+        self.c_range_iter = native_class("RangeIter", it_next("range", "RangeIter"), superclass=self.c_iter)
         self.c_hash_map = native_class("HashMap", MAP_METHODS)
         self.c_module = native_class("Module", {})
-        self.c_string_iter = native_class("StringIter", {"next": n_iter_next}, superclass=self.c_iter)
+        self.c_string_iter = native_class("StringIter", it_next("string", "StringIter"), superclass=self.c_iter)
         fiber_meta = YClass("FiberClass", self.c_type, self.c_object,
                             {"yield": YNative("yield", n_fiber_yield), "new": YNative("new", n_fiber_new)})
         self.c_fiber = YClass("Fiber", fiber_meta, self.c_object,
-                              {"call": YNative("call", n_fiber_call), "has_finished": YNative("has_finished", n_fiber_has_finished)})
+                              {k: YNative(k, f) for k, f in typed("Fiber", lambda r: type(r) is YFiber, {
+                                  "call": n_fiber_call, "has_finished": n_fiber_has_finished}, {"call": None, "has_finished": 0}).items()})
         self.classes["Fiber"] = self.c_fiber
         self.seed_builtins(self.main)
 
@@ -1843,13 +1846,30 @@ def s_to_code_points(ip, recv, args, frame):
     return YVec([float(ord(c)) for c in recv])
 
 
+def typed(kind, ok, table, arities):
+    """native methods check their receiver after the argument count: a user class may derive from a
+    built-in class and call the inherited native on an ordinary instance"""
+    out = {}
+    for name, fn in table.items():
+        def make(fn, arity):
+            def wrapper(ip, recv, args, frame):
+                if (arity is None or len(args) == arity) and not ok(recv):
+                    ip.throw("TypeError", "Expected a %s receiver but found '%s'." % (kind, ip.display(recv)))
+                return fn(ip, recv, args, frame)
+            return wrapper
+        out[name] = make(fn, arities.get(name))
+    return out
+
+
 STRING_STATICS = {"from": s_from, "from_ascii": s_from_ascii, "from_utf8": s_from_utf8,
                   "from_code_points": s_from_code_points}
-STRING_METHODS = {"iter": s_iter, "len": s_len, "is_alpha": s_is_alpha, "is_digit": s_is_digit,
-                  "is_hexdigit": s_is_hexdigit, "count_chars": s_count_chars, "char_byte_index": s_char_byte_index,
-                  "find": s_find, "replace": s_replace, "split": s_split, "starts_with": s_starts_with,
-                  "ends_with": s_ends_with, "to_num": s_to_num, "to_bytes": s_to_bytes,
-                  "to_code_points": s_to_code_points}
+STRING_METHODS = typed("String", lambda r: type(r) is str, {
+    "iter": s_iter, "len": s_len, "is_alpha": s_is_alpha, "is_digit": s_is_digit, "is_hexdigit": s_is_hexdigit,
+    "count_chars": s_count_chars, "char_byte_index": s_char_byte_index, "find": s_find, "replace": s_replace, "split": s_split,
+    "starts_with": s_starts_with, "ends_with": s_ends_with, "to_num": s_to_num, "to_bytes": s_to_bytes,
+    "to_code_points": s_to_code_points},
+    {"iter": 0, "len": 0, "is_alpha": 0, "is_digit": 0, "is_hexdigit": 0, "count_chars": 0, "char_byte_index": 1, "find": 2,
+     "replace": 2, "split": 1, "starts_with": 1, "ends_with": 1, "to_num": 0, "to_bytes": 0, "to_code_points": 0})
 
 
 # -- iterators
@@ -1903,7 +1923,7 @@ def t_iter(ip, recv, args, frame):
     return YIter("tuple", recv)
 
 
-TUPLE_METHODS = {"len": t_len, "iter": t_iter}
+TUPLE_METHODS = typed("Tuple", lambda r: type(r) is YTuple, {"len": t_len, "iter": t_iter}, {"len": 0, "iter": 0})
 
 
 def v_push(ip, recv, args, frame):
@@ -1924,7 +1944,8 @@ def v_iter(ip, recv, args, frame):
     return YIter("vec", recv)
 
 
-VEC_METHODS = {"push": v_push, "pop": v_pop, "len": t_len, "iter": v_iter}
+VEC_METHODS = typed("Vec", lambda r: type(r) is YVec, {"push": v_push, "pop": v_pop, "len": t_len, "iter": v_iter},
+                    {"push": 1, "pop": 0, "len": 0, "iter": 0})
 
 
 # -- HashMap
@@ -1993,8 +2014,10 @@ def m_items(ip, recv, args, frame):
     return YVec([YTuple([e[0], e[1]]) for e in recv.entries])
 
 
-MAP_METHODS = {"has_key": m_has_key, "get": m_get, "insert": m_insert, "remove": m_remove, "clear": m_clear,
-               "len": m_len, "keys": m_keys, "values": m_values, "items": m_items}
+MAP_METHODS = typed("HashMap", lambda r: type(r) is YMap, {
+    "has_key": m_has_key, "get": m_get, "insert": m_insert, "remove": m_remove, "clear": m_clear, "len": m_len, "keys": m_keys,
+    "values": m_values, "items": m_items},
+    {"has_key": 1, "get": 1, "insert": 2, "remove": 1, "clear": 0, "len": 0, "keys": 0, "values": 0, "items": 0})
 
 
 # -- Fiber
